@@ -2,7 +2,8 @@
 //!
 //! Scenario `c20/identities`: every history (up to a depth and to small budgets) over Init.Exec,
 //! Init.Exec4, EAM.CreateExternal, a factory contract doing CREATE / CREATE2 (same salt twice,
-//! destroy-then-redeploy, re-entrant creation, reverting constructor), self-destructs and plain
+//! destroy-then-redeploy, re-entrant creation, creation inside a DELEGATECALL, state writes and
+//! further creations of the outer frame after a nested frame created, reverting constructor), self-destructs and plain
 //! sends that auto-create accounts and placeholders, executed against the real actors. After
 //! every step the complete actor table, the complete Init address map, `next_id` and the nonce
 //! and code of every contract are compared with an id-registry reference model that is written
@@ -120,6 +121,7 @@ fn akey(a: &Address) -> String {
 
 mod op {
     pub const STOP: u8 = 0x00;
+    pub const ADD: u8 = 0x01;
     pub const EQ: u8 = 0x14;
     pub const BYTE: u8 = 0x1a;
     pub const SHR: u8 = 0x1c;
@@ -127,6 +129,8 @@ mod op {
     pub const CALLDATALOAD: u8 = 0x35;
     pub const CODECOPY: u8 = 0x39;
     pub const POP: u8 = 0x50;
+    pub const SLOAD: u8 = 0x54;
+    pub const SSTORE: u8 = 0x55;
     pub const MSTORE: u8 = 0x52;
     pub const MSTORE8: u8 = 0x53;
     pub const JUMPI: u8 = 0x57;
@@ -137,6 +141,7 @@ mod op {
     pub const CREATE: u8 = 0xf0;
     pub const CALL: u8 = 0xf1;
     pub const RETURN: u8 = 0xf3;
+    pub const DELEGATECALL: u8 = 0xf4;
     pub const CREATE2: u8 = 0xf5;
     pub const REVERT: u8 = 0xfd;
     pub const SELFDESTRUCT: u8 = 0xff;
@@ -213,6 +218,19 @@ const FOP_TWICE: u8 = 3;
 const FOP_KILL_RECREATE: u8 = 4;
 const FOP_REENTRANT: u8 = 5;
 const FOP_REVERTING: u8 = 6;
+const FOP_DELEGATE_STORE: u8 = 7;
+const FOP_DELEGATE_CREATE: u8 = 8;
+const FOP_REENTRANT_STORE: u8 = 9;
+const FOP_REENTRANT_STORE_CREATE: u8 = 10;
+
+/// Runtime code of the library: `CREATE(0, 0, 0)` (an empty contract) and return the result word.
+/// Executed through DELEGATECALL it creates *as the calling contract*, in a nested frame.
+fn library_runtime() -> Vec<u8> {
+    asm(&[
+        I::B(PUSH0), I::B(PUSH0), I::B(PUSH0), I::B(CREATE),
+        I::B(PUSH0), I::B(MSTORE), I::Push(vec![32]), I::B(PUSH0), I::B(RETURN),
+    ])
+}
 
 /// init code that calls its creator back (`creator.call([FOP_CREATE])`) and returns `RT_INERT`
 fn init_reentrant() -> Vec<u8> {
@@ -242,6 +260,10 @@ fn factory_runtime() -> Vec<u8> {
         (FOP_KILL_RECREATE, "killre"),
         (FOP_REENTRANT, "reent"),
         (FOP_REVERTING, "revert"),
+        (FOP_DELEGATE_STORE, "dstore"),
+        (FOP_DELEGATE_CREATE, "dcreate"),
+        (FOP_REENTRANT_STORE, "rstore"),
+        (FOP_REENTRANT_STORE_CREATE, "rstorecreate"),
     ] {
         b(&mut v, &[DUP1]);
         v.push(I::Push(vec![k]));
@@ -327,6 +349,72 @@ fn factory_runtime() -> Vec<u8> {
     do_create(&mut v, s);
     ret_word(&mut v);
 
+    // The operations below make the outer frame touch its own state *after* a nested frame of
+    // this same contract has created (and so consumed a nonce).
+    // sstore(0, sload(0) + 1): always a change
+    let bump_slot = |v: &mut Vec<I>| {
+        v.push(I::B(PUSH0));
+        v.push(I::B(SLOAD));
+        v.push(I::Push(vec![1]));
+        v.push(I::B(ADD));
+        v.push(I::B(PUSH0));
+        v.push(I::B(SSTORE));
+    };
+    // delegatecall(gas, address(calldata[2..22]), 0, 0, 64, 32); pop
+    let delegate = |v: &mut Vec<I>| {
+        v.push(I::Push(vec![32]));
+        v.push(I::Push(vec![64]));
+        v.push(I::B(PUSH0));
+        v.push(I::B(PUSH0));
+        v.push(I::Push(vec![2]));
+        v.push(I::B(CALLDATALOAD));
+        v.push(I::Push(vec![96]));
+        v.push(I::B(SHR));
+        v.push(I::B(GAS));
+        v.push(I::B(DELEGATECALL));
+        v.push(I::B(POP));
+    };
+    // mstore(at, top)
+    let store_at = |v: &mut Vec<I>, at: u8| {
+        v.push(I::Push(vec![at]));
+        v.push(I::B(MSTORE));
+    };
+    // return(64, n)
+    let ret_from_64 = |v: &mut Vec<I>, n: u8| {
+        v.push(I::Push(vec![n]));
+        v.push(I::Push(vec![64]));
+        v.push(I::B(RETURN));
+    };
+
+    v.push(I::Label("dstore"));
+    delegate(&mut v); // mem[64..96] = the library's result word
+    bump_slot(&mut v);
+    ret_from_64(&mut v, 32);
+
+    v.push(I::Label("dcreate"));
+    delegate(&mut v);
+    let s = stage(&mut v, init_killable());
+    do_create(&mut v, s);
+    store_at(&mut v, 96);
+    ret_from_64(&mut v, 64);
+
+    v.push(I::Label("rstore"));
+    let s = stage(&mut v, init_reentrant());
+    do_create(&mut v, s);
+    store_at(&mut v, 64);
+    bump_slot(&mut v);
+    ret_from_64(&mut v, 32);
+
+    v.push(I::Label("rstorecreate"));
+    let s = stage(&mut v, init_reentrant());
+    do_create(&mut v, s);
+    store_at(&mut v, 64);
+    bump_slot(&mut v);
+    let s = stage(&mut v, init_killable());
+    do_create(&mut v, s);
+    store_at(&mut v, 96);
+    ret_from_64(&mut v, 64);
+
     asm(&v)
 }
 
@@ -410,6 +498,15 @@ pub enum FOp {
     CreateReentrant,
     /// CREATE of a child whose constructor reverts
     CreateReverting,
+    /// DELEGATECALL a library whose code CREATEs (a nested frame of the factory creates), then
+    /// the outer frame writes a storage slot
+    DelegateCreateThenStore,
+    /// the same, then the outer frame CREATEs itself
+    DelegateCreateThenCreate,
+    /// `CreateReentrant`, then the outer frame writes a storage slot
+    ReentrantCreateThenStore,
+    /// `CreateReentrant`, then the outer frame writes a storage slot and CREATEs again
+    ReentrantCreateThenStoreAndCreate,
 }
 
 #[derive(Clone, Copy, Debug, Serialize, Deserialize, PartialEq, Eq)]
@@ -486,6 +583,7 @@ pub enum Rt {
     Killable,
     Inert,
     Empty,
+    Library,
 }
 
 #[derive(Clone, Debug, Serialize, PartialEq, Eq)]
@@ -738,6 +836,9 @@ pub struct Cast {
     pub e_eth: Eth,
     pub f: ActorID,
     pub f_eth: Eth,
+    /// the library contract (deployed by K through the EAM)
+    pub l: ActorID,
+    pub l_eth: Eth,
     /// FIP-0055: the Ethereum-style address of a native account is the keccak hash of its key address
     pub k_stable: Eth,
 }
@@ -749,8 +850,8 @@ pub struct W {
     pub base_model: Model,
     /// a property violation seen while building the base state (reported by the first step)
     pub base_problem: Option<String>,
-    /// keccak of the runtime code of each contract kind [Factory, Killable, Inert, Empty]
-    pub code_hash: [[u8; 32]; 4],
+    /// keccak of the runtime code of each contract kind [Factory, Killable, Inert, Empty, Library]
+    pub code_hash: [[u8; 32]; 5],
 }
 
 pub struct Identities {
@@ -791,6 +892,7 @@ fn rt_code(rt: Rt) -> Vec<u8> {
         Rt::Killable => RT_KILLABLE.to_vec(),
         Rt::Inert => RT_INERT.to_vec(),
         Rt::Empty => vec![],
+        Rt::Library => library_runtime(),
     }
 }
 
@@ -959,7 +1061,7 @@ impl Identities {
             };
             if st.nonce != e.nonce {
                 let was = before.evm.get(id).map(|x| x.nonce);
-                tx.fail(format!("contract {id} has nonce {}, Ethereum's rules give {} (before the step: {was:?})", st.nonce, e.nonce));
+                tx.fail(format!("contract {id} has nonce {}, Ethereum's rules give {} (before the step: {was:?}); the nonce counts every CREATE/CREATE2 of the contract, in whichever call frame, and never goes back", st.nonce, e.nonce));
                 return;
             }
             if !e.dead && !tx.zombies.contains(id) && st.bytecode_hash.as_slice() != w.code_hash[e.rt as usize] {
@@ -1146,40 +1248,47 @@ impl Scenario for Identities {
         let r = ext(&vm, k.0, &f4(&E_ETH), &fil(1000), METHOD_SEND, NOP);
         assert!(r.ok(), "SETUP-FAILED placeholder: {}", r.tree());
         let e = vm.resolve(&f4(&E_ETH)).expect("SETUP-FAILED placeholder id");
-        // F: the factory, deployed by K through the EAM
+        // F (the factory) and L (the library), deployed by K through the EAM
         let k_stable: Eth = keccak(&k.1.to_bytes())[12..].try_into().unwrap();
-        let seq = vm.actor(k.0).unwrap().sequence;
-        let f_expected = create_addr(&k_stable, seq);
-        let r = ext(
-            &vm,
-            k.0,
-            &EAM_ACTOR_ADDR,
-            &TokenAmount::zero(),
-            fil_actor_eam::Method::CreateExternal as u64,
-            Some(&fil_actor_eam::CreateExternalParams(init_returning(&factory_runtime()))),
-        );
-        let (f, f_eth) = match r.ret.as_ref().filter(|_| r.ok()).and_then(|b| b.deserialize::<fil_actor_eam::Return>().ok()) {
-            Some(ret) => {
-                if ret.eth_address.0 != f_expected && problem.is_none() {
-                    problem = Some(format!(
-                        "base state: CreateExternal by a key account at nonce {seq} returned 0x{}, keccak(rlp([keccak(key address)[12..], nonce]))[12..] is 0x{}",
-                        hex::encode(ret.eth_address.0),
-                        hex::encode(f_expected)
-                    ));
+        let mut deploy = |runtime: Vec<u8>| -> (ActorID, Eth) {
+            let seq = vm.actor(k.0).unwrap().sequence;
+            let expected = create_addr(&k_stable, seq);
+            let r = ext(
+                &vm,
+                k.0,
+                &EAM_ACTOR_ADDR,
+                &TokenAmount::zero(),
+                fil_actor_eam::Method::CreateExternal as u64,
+                Some(&fil_actor_eam::CreateExternalParams(init_returning(&runtime))),
+            );
+            match r.ret.as_ref().filter(|_| r.ok()).and_then(|b| b.deserialize::<fil_actor_eam::Return>().ok()) {
+                Some(ret) => {
+                    if ret.eth_address.0 != expected && problem.is_none() {
+                        problem = Some(format!(
+                            "base state: CreateExternal by a key account at nonce {seq} returned 0x{}, keccak(rlp([keccak(key address)[12..], nonce]))[12..] is 0x{}",
+                            hex::encode(ret.eth_address.0),
+                            hex::encode(expected)
+                        ));
+                    }
+                    (ret.actor_id, ret.eth_address.0)
                 }
-                (ret.actor_id, ret.eth_address.0)
-            }
-            None => {
-                if problem.is_none() {
-                    problem = Some(format!("base state: an account could not deploy a contract through the EAM\n{}", r.tree()));
+                None => {
+                    if problem.is_none() {
+                        problem = Some(format!("base state: an account could not deploy a contract through the EAM\n{}", r.tree()));
+                    }
+                    (u64::MAX, expected)
                 }
-                (u64::MAX, f_expected)
             }
         };
+        let (f, f_eth) = deploy(factory_runtime());
+        let (l, l_eth) = deploy(library_runtime());
         let base = vm.snapshot();
-        let base_model = self.observe(&vm);
-        let code_hash = [Rt::Factory, Rt::Killable, Rt::Inert, Rt::Empty].map(|rt| keccak(&rt_code(rt)));
-        W { vm, cast: Cast { k, k2, msig, e, e_eth: E_ETH, f, f_eth, k_stable }, base, base_model, base_problem: problem, code_hash }
+        let mut base_model = self.observe(&vm);
+        if let Some(e) = base_model.evm.get_mut(&l) {
+            e.rt = Rt::Library;
+        }
+        let code_hash = [Rt::Factory, Rt::Killable, Rt::Inert, Rt::Empty, Rt::Library].map(|rt| keccak(&rt_code(rt)));
+        W { vm, cast: Cast { k, k2, msig, e, e_eth: E_ETH, f, f_eth, l, l_eth, k_stable }, base, base_model, base_problem: problem, code_hash }
     }
 
     fn bases(&self, w: &W) -> Vec<(String, VS<Model>)> {
@@ -1242,6 +1351,10 @@ impl Scenario for Identities {
         v.push(Act::Factory(FOp::KillAndRecreate(0)));
         v.push(Act::Factory(FOp::CreateReentrant));
         v.push(Act::Factory(FOp::CreateReverting));
+        v.push(Act::Factory(FOp::DelegateCreateThenStore));
+        v.push(Act::Factory(FOp::DelegateCreateThenCreate));
+        v.push(Act::Factory(FOp::ReentrantCreateThenStore));
+        v.push(Act::Factory(FOp::ReentrantCreateThenStoreAndCreate));
         for salt in [0u8, 1] {
             let a = akey(&f4(&create2_addr(&w.cast.f_eth, salt, &init_killable())));
             if let Some(id) = m.addrs.get(&a)
@@ -1495,7 +1608,12 @@ impl Scenario for Identities {
                 let kill_init = init_killable();
                 let mut created = false;
                 let first = match fop {
-                    FOp::Create | FOp::CreateReentrant => Some(create_addr(&f_eth, n)),
+                    FOp::Create
+                    | FOp::CreateReentrant
+                    | FOp::DelegateCreateThenStore
+                    | FOp::DelegateCreateThenCreate
+                    | FOp::ReentrantCreateThenStore
+                    | FOp::ReentrantCreateThenStoreAndCreate => Some(create_addr(&f_eth, n)),
                     FOp::Create2(s) | FOp::Create2Twice(s) => Some(create2_addr(&f_eth, *s, &kill_init)),
                     // destroys first: a live child becomes a zombie, whose redeployment is not judged
                     FOp::KillAndRecreate(s) => {
@@ -1554,10 +1672,16 @@ impl Scenario for Identities {
                         }
                         created = self.factory_deploy(w, &mut tx, "CREATE2 after destroying the child in the same message", &eth, Ctor::Valid, Rt::Killable, words.first(), &r);
                     }
-                    FOp::CreateReentrant => {
-                        let (r, words) = self.call_factory(w, vec![FOP_REENTRANT]);
+                    FOp::CreateReentrant | FOp::ReentrantCreateThenStore | FOp::ReentrantCreateThenStoreAndCreate => {
+                        let (opb, creates) = match fop {
+                            FOp::CreateReentrant => (FOP_REENTRANT, 2),
+                            FOp::ReentrantCreateThenStore => (FOP_REENTRANT_STORE, 2),
+                            _ => (FOP_REENTRANT_STORE_CREATE, 3),
+                        };
+                        let (r, words) = self.call_factory(w, vec![opb]);
                         if r.ok() {
-                            tx.m.evm.get_mut(&f).unwrap().nonce = n + 2;
+                            // every CREATE of this deployer, in whichever frame, consumes one nonce
+                            tx.m.evm.get_mut(&f).unwrap().nonce = n + creates;
                         }
                         let outer = create_addr(&f_eth, n);
                         let inner = create_addr(&f_eth, n + 1);
@@ -1579,6 +1703,42 @@ impl Scenario for Identities {
                                     ));
                                 }
                             }
+                        }
+                        if creates == 3 && r.ok() {
+                            created |= self.factory_deploy(
+                                w,
+                                &mut tx,
+                                "CREATE by the outer frame after a nested frame of the same contract created (third nonce of this message)",
+                                &create_addr(&f_eth, n + 2),
+                                Ctor::Valid,
+                                Rt::Killable,
+                                words.get(1),
+                                &r,
+                            );
+                        }
+                    }
+                    FOp::DelegateCreateThenStore | FOp::DelegateCreateThenCreate => {
+                        let two = *fop == FOp::DelegateCreateThenCreate;
+                        let mut input = vec![if two { FOP_DELEGATE_CREATE } else { FOP_DELEGATE_STORE }, 0];
+                        input.extend_from_slice(&w.cast.l_eth);
+                        let (r, words) = self.call_factory(w, input);
+                        if r.ok() {
+                            tx.m.evm.get_mut(&f).unwrap().nonce = n + if two { 2 } else { 1 };
+                        }
+                        // the library code runs as the factory: the new contract's address derives from
+                        // the factory's address and nonce
+                        created = self.factory_deploy(w, &mut tx, "CREATE inside a DELEGATECALL (the calling contract is the deployer)", &create_addr(&f_eth, n), Ctor::Valid, Rt::Empty, words.first(), &r);
+                        if two && r.ok() {
+                            created |= self.factory_deploy(
+                                w,
+                                &mut tx,
+                                "CREATE by the outer frame after a delegate-called frame created (second nonce of this message)",
+                                &create_addr(&f_eth, n + 1),
+                                Ctor::Valid,
+                                Rt::Killable,
+                                words.get(1),
+                                &r,
+                            );
                         }
                     }
                     FOp::CreateReverting => {
@@ -1706,14 +1866,14 @@ impl Scenario for Identities {
         json!({
             "policy": "MAINNET",
             "nonces": "External messages bump the sender nonce; nonces are part of the state key",
-            "cast": "key account K, key account K2, multisig M (signer K), placeholder/Ethereum account E, factory contract F (deployed by K through the EAM), power actor, EAM",
+            "cast": "key account K, key account K2, multisig M (signer K), placeholder/Ethereum account E, factory contract F and library contract L (deployed by K through the EAM), power actor, EAM",
             "budgets": {"creations per history": self.creations, "self-destructs per history": self.kills, "steps that change nothing in the registry (nonce only)": self.idle},
             "alphabet": {
                 "Init.Exec": "callers {account, multisig(imp), power(imp), EAM(imp)} x code {multisig ok, multisig bad params, paych, miner (valid params, deposit attached), account, evm, junk cid, singleton (cron)}",
                 "Power.CreateMiner": "real path, by the account",
                 "Init.Exec4": "by account (multisig code with valid parameters, fresh address); by EAM(imp) (contract code) onto {fresh address, placeholder address, live contract}",
                 "EAM.CreateExternal": "senders {account, placeholder->ethaccount} x init code {empty, ok, reverting, returns 0xEF code, self-destructs in constructor}",
-                "factory": "CREATE; CREATE2 salt 0/1; CREATE2 twice same salt in one message; destroy child then CREATE2 again in the same message; CREATE whose constructor re-enters the factory (nested CREATE); CREATE with reverting constructor",
+                "factory": "CREATE; CREATE2 salt 0/1; CREATE2 twice same salt in one message; destroy child then CREATE2 again in the same message; CREATE whose constructor re-enters the factory (nested CREATE); CREATE with reverting constructor; DELEGATECALL into a library that CREATEs, then SSTORE / then CREATE in the outer frame; re-entrant CREATE, then SSTORE / then SSTORE and CREATE in the outer frame (a nested frame of the deployer consumes a nonce, the outer frame then rewrites its state)",
                 "invoke child": "self-destructs the CREATE2 child (salt 0/1); the next CREATE2 with that salt is the resurrection path",
                 "send": "fresh f1, fresh f3, f4 in EAM namespace, f4 in a foreign namespace, precompile 0x00..01, native precompile 0xfe..01, masked id 0xff..id, null address, the factory's CREATE2(salt 1) address, the factory's next CREATE address, the next CreateExternal address of E and of K",
             },
